@@ -160,3 +160,38 @@ func canaryRoundTrip() bool {
 		return false
 	}
 }
+
+// tailEndStuck: stuck-state evidence for "plain follow ends the stream once the followed files are
+// removed" at batch level. The batch channel of TailFilesToChan is closed by its coordinator goroutine
+// after wg.Wait(); the only goroutines that can release that wait are the per-file reader goroutines.
+// When a goroutine dump shows NO per-file reader goroutine of TailFilesToChan any more (they all
+// returned) while the channel is still open, nothing in the process can ever close it: the coordinator
+// is blocked in WaitGroup.Wait for a Done that nobody is left to call, or it has returned without
+// closing. Purely structural, no clock involved; a leftover reader goroutine of an earlier history in
+// the same process makes the evidence unavailable (=> inconclusive), never wrong.
+func tailEndStuck() (evidence string, ok bool) {
+	dump := allStacks()
+	readers, coord := 0, ""
+	for _, g := range strings.Split(dump, "\n\n") {
+		if !strings.Contains(g, "batchers.TailFilesToChan") {
+			continue
+		}
+		if strings.Contains(g, "batchers.TailFilesToChan.func1.1(") || strings.Contains(g, "syncReaderToBatcherWithTimeFlush") {
+			readers++
+			continue
+		}
+		if strings.Contains(g, "batchers.TailFilesToChan.func1(") {
+			coord = g
+		}
+	}
+	if readers > 0 {
+		return "", false
+	}
+	if coord == "" {
+		return "no goroutine of TailFilesToChan is left at all (the coordinator returned without closing the channel)", true
+	}
+	if !strings.Contains(coord, "sync.(*WaitGroup).Wait") {
+		return "", false // the coordinator is between Wait and close: about to finish
+	}
+	return "every per-file reader goroutine has returned and the coordinator is blocked in sync.WaitGroup.Wait:\n" + coord, true
+}
